@@ -454,7 +454,7 @@ impl Value {
         match self {
             Value::List(_, list_separator, _) => *list_separator,
             Value::Map(map) => map.separator(),
-            Value::ArgList(..) => ListSeparator::Comma,
+            Value::ArgList(arglist) => arglist.separator,
             _ => ListSeparator::Space,
         }
     }
